@@ -40,3 +40,21 @@ Proof.
     repeat split; [right; left; reflexivity | apply not_within; reflexivity].
 Qed.
 Print Assumptions C18_manifest_refuted.
+
+(* F18d: before its repair the deployment checked the manifest with Manifest.validate only; a manifest that
+   makes conf a link, or the package file inside a copied conf a link, passes it, and the deployment's own
+   write of the package file lands in the folder (on the file) the link points to. *)
+Theorem C18_conf_refuted :
+  (exists tgt man p, validate man = true /\ In p (deploy_self false tgt man) /\ ~ within tgt p /\
+                     man = [("conf", "/p/myconf:link")]) /\
+  (exists tgt man p, validate man = true /\ In p (deploy_self false tgt man) /\ ~ within tgt p /\
+                     man = [("conf", "/p/myconf:copy"); ("conf/flowir_package.yaml", "/p/src/f.txt:link")]).
+Proof.
+  split.
+  - exists ["loc"; "inst"], [("conf", "/p/myconf:link")], ["p"; "myconf"; "flowir_package.yaml"].
+    repeat split; [left; reflexivity | apply not_within; reflexivity].
+  - exists ["loc"; "inst"], [("conf", "/p/myconf:copy"); ("conf/flowir_package.yaml", "/p/src/f.txt:link")],
+           ["p"; "src"; "f.txt"].
+    repeat split; [left; reflexivity | apply not_within; reflexivity].
+Qed.
+Print Assumptions C18_conf_refuted.
